@@ -319,10 +319,15 @@ static bool judge(vfh::Reporter &R0, const Mat &m, const Cfg &c, const Outcome &
     return w;
   };
   const std::string kp = c.ham ? "ham/" : "symm/";
+  // bounded progress is judged for diagonally dominant matrices with the default iteration limit (or more) and a
+  // search-space limit that is not below the solver's default (5*neigen); tighter user limits are counted only
+  const bool progress_judged = m.must_succeed && c.iter_max >= 50 && c.guess == 0 && (c.max_space == 0 || c.max_space >= 5 * c.neigen);
+  if (progress_judged) R.counter("progress_clause_judged");
   if (o.threw) {
     R.counter("threw:" + o.what.substr(0, 40));
-    if (m.must_succeed && c.iter_max >= 50 && c.guess == 0)
-      R.violation("progress/diagonally-dominant-throws", "solve() threw on a diagonally dominant matrix (default iteration limit)", W().s("exception", o.what));
+    if (progress_judged)
+      R.violation("progress/diagonally-dominant-throws", "solve() threw on a diagonally dominant matrix (default iteration limit, search space not below the default)", W().s("exception", o.what));
+    else if (m.must_succeed) R.counter("diagdom_no_success_with_search_space_below_default_or_short_iteration_limit(not_judged)");
     return false;
   }
   long ne = c.neigen;
@@ -346,8 +351,9 @@ static bool judge(vfh::Reporter &R0, const Mat &m, const Cfg &c, const Outcome &
       if (!(res <= 10 * c.tolv + slack))
         R.violation(kp + "nonconverged/kept-root-has-large-residual", "a root kept by a non-converged solve has a residual above the tolerance", W().i("root", k).d("residual", res).d("tolerance", c.tolv).vec("eigenvalues", evs));
     }
-    if (m.must_succeed && c.iter_max >= 50 && c.guess == 0)
-      R.violation("progress/diagonally-dominant-not-converged", "no success within the default iteration limit on a diagonally dominant matrix", W().vec("eigenvalues", evs));
+    if (progress_judged)
+      R.violation("progress/diagonally-dominant-not-converged", "no success within the default iteration limit on a diagonally dominant matrix (search space not below the default)", W().vec("eigenvalues", evs));
+    else if (m.must_succeed) R.counter("diagdom_no_success_with_search_space_below_default_or_short_iteration_limit(not_judged)");
     return false;
   }
   // ---- success: everything the statement promises
